@@ -6,7 +6,7 @@ TARGETS = ["Base/Num.vo", "Base/Corr.vo", "C16/Model.vo", "C16/Spec.vo", "C16/Pr
            "C16/ProofsModel.vo", "C16/Corr.vo", "C16/ProofsCorr.vo", "C16/ModelHmm.vo", "C16/ProofsBW.vo",
            "C16/ProofsBW2.vo", "C16/ProofsBW3.vo", "C16/ProofsClamp.vo", "C16/Corr2.vo", "C16/ModelVec.vo", "C16/Corr3.vo", "C16/ProofsCorr3.vo", "C16/ProofsVec.vo", "C16/ProofsDet.vo",
            "C16/ModelNest.vo", "C16/ProofsNest.vo", "C16/Corr5.vo",
-           "C16/ModelObj.vo", "C16/ProofsObj.vo", "C16/Corr6.vo",
+           "C16/ModelObj.vo", "C16/ProofsObj.vo", "C16/ModelNum.vo", "C16/ProofsNum.vo", "C16/ProofsBatch.vo", "C16/Corr6.vo",
            "C16/SpecTest.vo", "C16/Props.vo"]
 PROPS = ["C16/Props.v"]
 CORPUS = os.path.join(vlib.ROOT, "corpus/C16/corpus.jsonl")
@@ -20,7 +20,7 @@ CORPUS5 = os.path.join(vlib.ROOT, "corpus/C16/corpus5.jsonl")
 KINDS5 = ("nest", "summ")
 CORPUS6 = os.path.join(vlib.ROOT, "corpus/C16/corpus6.jsonl")
 SID_WITNESS = os.path.join(vlib.ROOT, "corpus/C16/sid_stale_witness.json")
-KINDS6 = ("seq", "emfinal", "reuse3")
+KINDS6 = ("seq", "emfinal", "reuse3", "num")
 PARTIAL = ("Theorems are over exact real arithmetic (Coq Reals) about the hand-written models coq/C16/Model.v / ModelHmm.v / ModelVec.v "
            "with ONE worker thread; the step to binary64 is bounded per sampled case only (bit-exact replay of the scalar and the "
            "vector normal estimator, 1e-9 tolerance decided in Q for the log-scale families, the negative binomial closed form, "
@@ -65,7 +65,19 @@ PARTIAL = ("Theorems are over exact real arithmetic (Coq Reals) about the hand-w
            "object-level copy semantics (scalarId / scalarIid copy in SetData) are in the harness, not in a Coq object model; HMM estimators re-used across "
            "calls are not exercised; known finding F-SID-STALE-FAILURE (scalarId refuses every data set after a failed call). Returned EM mixture: proved for "
            "the driver model (last hooked mixture; at least as likely as every reported likelihood given an ascending step), compared per case for "
-           "Mixture/DiscreteMixture estimators with Poisson / categorical components only (not for normal-component, nested or HMM runs).")
+           "Mixture/DiscreteMixture estimators with Poisson / categorical components only (not for normal-component, nested or HMM runs). "
+           "Round 7: mixed batches (Initialize; NewObservation with nil and non-nil gamma in one batch; GetEstimate) are proved over R to return the "
+           "weighted closed form under the effective weights for the geometric, Poisson and exponential families (ONE worker thread; categorical and "
+           "normal mixed batches are only tied per case: categorical through the judged recording object, normal bit-exactly), and generated as a "
+           "dedicated stream for all five scalar families; the binary64 step is per case as before. NumericEstimator (scalarEstimator/numeric.go): only "
+           "the OBJECTIVE is modelled (ModelNum.v: fold over the observations, log-weight -Inf skipped, exp of the log-weight, negation, division by n) "
+           "and proved to be the scaled negative weighted log-likelihood when every out-of-support observation has log-weight -Inf; it is tied bit-exactly "
+           "per objective evaluation through the estimator's Hook for exponential and gamma densities (newton, bfgs; at most the first 10 evaluations of a "
+           "run, evaluations at NaN variables not compared), with the per-observation log-densities at the hooked variables taken from Go as DATA (the "
+           "densities' LogPdf are not modelled here), ONE worker thread (the per-thread partial sums and their merge are not modelled), the division by n "
+           "and the negation are in the model but not observable through the Hook; NO theorem about the optimizers' iteration (newton / bfgs / rprop) nor "
+           "about stationarity of the returned parameters; rprop is not exercised (no iteration bound in NumericEstimator), every run is cut off by the "
+           "harness after 120 objective evaluations.")
 
 
 def findings():
@@ -191,7 +203,7 @@ def corr(ctx, binary, n):
             ctx.discharged += 1   # every mismatch of the shard is a recorded finding
     ctx.log("correspondence: %d + %d (Baum-Welch) + %d (round 3: vector normal, products, negative binomial, logistic regression, "
             "normal-mixture EM) + %d (round 5: nested estimators / summarised data) + %d (round 6: call sequences on one estimator "
-            "object, returned EM mixture, re-used vector estimators) cases in %d shards (+%d exp-table certificates, "
+            "object incl. round 7's mixed unweighted/weighted batches, returned EM mixture, re-used vector estimators, round 7's NumericEstimator objective) cases in %d shards (+%d exp-table certificates, "
             "%d gradient certificates), %d mismatching, %d known" % (
         len(cases), len(cases2), len(cases3), len(cases5), len(cases6),
         len(shards) + len(shards2) + len(shards3) + len(shards5) + len(shards6), len(certs),
